@@ -158,36 +158,43 @@ deriving DecidableEq, Repr
 def onlyDifferByTimestamp (last new : SignBytes) : Bool :=
   decide ({ last with ts := 0 } = { new with ts := 0 })
 
+def State.release {σ : Type} (s : State σ) (e : Released σ) : State σ :=
+  { s with released := s.released ++ [e] }
+
+/-- The same-HRS branch (`if sameHRS { … }`): nothing is signed, nothing is written. -/
+def reuse {σ : Type} (s : State σ) (sb : SignBytes) : State σ × Out σ :=
+  match s.mem.sb, s.mem.sig with
+  | some last, some sg =>
+    if sb = last then
+      (s.release ⟨sb.hrs, sb.body, sb.ts, sg⟩, .sig sg sb.ts)
+    else if onlyDifferByTimestamp last sb then
+      (s.release ⟨sb.hrs, sb.body, last.ts, sg⟩, .sig sg last.ts)     -- ORIGINAL signature and timestamp
+    else (s, .err .conflict none)
+  | _, _ => (s, .panicNoSig)   -- excluded by `checkHRS = same`
+
+/-- The fresh-HRS branch: sign, assign to the request object, `Update` (memory
+first), `save` = `validate` then `WriteFileAtomic`, and only then return. -/
+def freshSign {σ : Type} (sign : SignBytes → σ) (p : Persist) (s : State σ) (sb : SignBytes) : State σ × Out σ :=
+  let sg := sign sb                                        -- pv.signer.Sign; vote.Signature = signature
+  let mem' : SignState σ := ⟨sb.hrs, some sb, some sg⟩      -- fs.Update: the five fields, in memory
+  if !validate mem' then ({ s with mem := mem' }, .err .validate (some sg))
+  else match p with
+    | .normal =>
+      if s.failing then ({ s with mem := mem' }, .err .save (some sg))
+      else (({ s with mem := mem', disk := mem' } : State σ).release ⟨sb.hrs, sb.body, sb.ts, sg⟩, .sig sg sb.ts)
+    | .killedOld => ({ s with mem := mem' }, .killed)
+    | .killedNew => ({ s with mem := mem', disk := mem' }, .killed)
+
 /-- One `SignVote` / `SignProposal`. `sign` is the signer (`pv.signer.Sign`). -/
 def signReq {σ : Type} (sign : SignBytes → σ) (p : Persist) (s : State σ) (q : Req) : State σ × Out σ :=
   match q.step with
   | none => (s, .panicVoteType)
   | some step =>
-    let hrs : HRS := ⟨q.h, q.r, step⟩
-    match checkHRS s.mem hrs with
+    match checkHRS s.mem ⟨q.h, q.r, step⟩ with
     | .err e => (s, .err e none)
     | .panicNoSig => (s, .panicNoSig)
-    | .same =>
-      match s.mem.sb, s.mem.sig with
-      | some last, some sg =>
-        let sb : SignBytes := ⟨hrs, q.body, q.ts⟩
-        if sb = last then
-          ({ s with released := s.released ++ [⟨hrs, q.body, q.ts, sg⟩] }, .sig sg q.ts)
-        else if onlyDifferByTimestamp last sb then
-          ({ s with released := s.released ++ [⟨hrs, q.body, last.ts, sg⟩] }, .sig sg last.ts)
-        else (s, .err .conflict none)
-      | _, _ => (s, .panicNoSig)   -- excluded by `checkHRS = same`
-    | .fresh =>
-      let sb : SignBytes := ⟨hrs, q.body, q.ts⟩
-      let sg := sign sb                       -- signer called; vote.Signature = signature
-      let mem' : SignState σ := ⟨hrs, some sb, some sg⟩   -- Update: memory first
-      if !validate mem' then ({ s with mem := mem' }, .err .validate (some sg))
-      else match p with
-        | .normal =>
-          if s.failing then ({ s with mem := mem' }, .err .save (some sg))
-          else ({ s with mem := mem', disk := mem', released := s.released ++ [⟨hrs, q.body, q.ts, sg⟩] }, .sig sg q.ts)
-        | .killedOld => ({ s with mem := mem' }, .killed)
-        | .killedNew => ({ s with mem := mem', disk := mem' }, .killed)
+    | .same => reuse s ⟨⟨q.h, q.r, step⟩, q.body, q.ts⟩
+    | .fresh => freshSign sign p s ⟨⟨q.h, q.r, step⟩, q.body, q.ts⟩
 
 /-- Restart: `LoadOrMakeFileState` reads the file. -/
 def restart {σ : Type} (s : State σ) : State σ := { s with mem := s.disk }
@@ -212,25 +219,25 @@ Identical except that in the fresh branch the signature is handed out before
 `save`; so a kill before the rename (or a failed save) leaves a released
 signature that the file does not know about. -/
 
+def freshSignWrong {σ : Type} (sign : SignBytes → σ) (p : Persist) (s : State σ) (sb : SignBytes) : State σ × Out σ :=
+  let sg := sign sb
+  let mem' : SignState σ := ⟨sb.hrs, some sb, some sg⟩
+  let s1 : State σ := ({ s with mem := mem' } : State σ).release ⟨sb.hrs, sb.body, sb.ts, sg⟩   -- released FIRST
+  if !validate mem' then (s1, .sig sg sb.ts)
+  else match p with
+    | .normal => if s.failing then (s1, .sig sg sb.ts) else ({ s1 with disk := mem' }, .sig sg sb.ts)
+    | .killedOld => (s1, .sig sg sb.ts)
+    | .killedNew => ({ s1 with disk := mem' }, .sig sg sb.ts)
+
 def signReqWrong {σ : Type} (sign : SignBytes → σ) (p : Persist) (s : State σ) (q : Req) : State σ × Out σ :=
   match q.step with
   | none => (s, .panicVoteType)
   | some step =>
-    let hrs : HRS := ⟨q.h, q.r, step⟩
-    match checkHRS s.mem hrs with
-    | .fresh =>
-      let sb : SignBytes := ⟨hrs, q.body, q.ts⟩
-      let sg := sign sb
-      let mem' : SignState σ := ⟨hrs, some sb, some sg⟩
-      let rel := s.released ++ [⟨hrs, q.body, q.ts, sg⟩]     -- released FIRST
-      if !validate mem' then ({ s with mem := mem', released := rel }, .sig sg q.ts)
-      else match p with
-        | .normal =>
-          if s.failing then ({ s with mem := mem', released := rel }, .sig sg q.ts)
-          else ({ s with mem := mem', disk := mem', released := rel }, .sig sg q.ts)
-        | .killedOld => ({ s with mem := mem', released := rel }, .sig sg q.ts)
-        | .killedNew => ({ s with mem := mem', disk := mem', released := rel }, .sig sg q.ts)
-    | _ => signReq sign p s q
+    match checkHRS s.mem ⟨q.h, q.r, step⟩ with
+    | .err e => (s, .err e none)
+    | .panicNoSig => (s, .panicNoSig)
+    | .same => reuse s ⟨⟨q.h, q.r, step⟩, q.body, q.ts⟩
+    | .fresh => freshSignWrong sign p s ⟨⟨q.h, q.r, step⟩, q.body, q.ts⟩
 
 def stepWrong {σ : Type} (sign : SignBytes → σ) (s : State σ) : Op → State σ × Out σ
   | .sign q => signReqWrong sign .normal s q
